@@ -354,7 +354,7 @@ impl Prop for C17 {
         ]
     }
     fn run_worker(&self, ctx: &Ctx, rep: &mut Report) {
-        let n = ctx.share(ctx.tier.pick(3_000, 40_000));
+        let n = ctx.share(ctx.tier.pick(6_000, 60_000));
         drive(ctx, rep, "programs", cases(), n, &mut |c: &Case| judge_case(c));
         let n = ctx.share(ctx.tier.pick(1_500, 20_000));
         drive(ctx, rep, "tables", cases(), n, &mut |c: &Case| judge_table(c));
